@@ -60,7 +60,7 @@ def rms_norm(input, normalized_shape, weight, eps, **_):
     r = (input.float().pow(2).mean(dims, keepdim=True) + eps).sqrt().to(input.dtype)
     out = input / r
     if weight is not None:
-        out = out * weight
+        out *= weight  # in place: the result keeps the input's dtype also for a wider weight dtype
     return out
 
 def add(input, other, out, **_):
@@ -349,6 +349,15 @@ def check(report: Report, repo: Repo) -> None:
                     report.add("R2-reference", base, None, f"reference program not evaluable: {e}")
                     continue
                 ref_cases = TM.instances(TM.term_of(ref_val))
+                # ---- R6 result dtype (typestate of the tensor domain): same dtype as the PyTorch result
+                for gd_c, leaf_c in TM.leaves(summ.result):
+                    for gd_r, leaf_r in TM.leaves(ref_val):
+                        if not _compatible(gd_c, gd_r):
+                            continue
+                        dc, dr = getattr(leaf_c, "dtype", None), getattr(leaf_r, "dtype", None)
+                        if dc is None or dr is None or not isinstance(leaf_c, TV) or not isinstance(leaf_r, TV):
+                            continue
+                        report.add("R6-dtype", f"{base}::result-dtype", dc == dr, f"{full.name} | {TM.guard_str(gd_c)}: the result has the dtype of the PyTorch result (type promotion of out-of-place arithmetic vs the receiver's dtype of in-place arithmetic is tracked)", str(dc), str(dr), nontrivial=False)
                 for case in summ.cases:
                     sub = TM.guard_substitution(case.guard)
                     rc = [t for gd, t in ref_cases if _compatible(gd, case.guard)]
